@@ -171,6 +171,21 @@ Qed.
 Lemma leb0_ltb0 x : (x <=? 0) = negb (0 <? x).
 Proof. destruct (Z.leb_spec x 0), (Z.ltb_spec 0 x); try reflexivity; lia. Qed.
 
+(* ---- small arithmetic helpers (kept apart: nia is erratic in big contexts) -- *)
+
+Lemma carry_zero a M c X : 0 <= a < M -> 0 <= X -> 0 <= c -> a = X + M * c -> c = 0.
+Proof. intros. nia. Qed.
+
+Lemma limb_sub_eq w w2 P Q c c2 a b Vl :
+  w - P * c = a - Vl -> w2 - Q * c2 = b - c -> w + P * w2 = (a + P * b) - Vl + P * (Q * c2).
+Proof. intros H1 H2. replace w with (a - Vl + P * c) by lia. replace w2 with (b - c + Q * c2) by lia. ring. Qed.
+
+Lemma no_borrow_word q1 q M c : 0 <= q1 < M -> 0 <= q < M -> 1 <= q -> 0 <= c -> q1 - M * c = q - 1 -> c = 0.
+Proof. intros. nia. Qed.
+
+Lemma two_limb a b P Q : 0 <= a < P -> 0 <= b < Q -> 0 <= a + P * b < P * Q.
+Proof. intros. nia. Qed.
+
 (* ---- rec_subtract -------------------------------------------------------- *)
 
 Lemma rec_subtract_spec uu qhatv :
@@ -197,13 +212,10 @@ Proof.
     pose proof (val_bounds' w2 O2) as B2. rewrite L2 in B2.
     pose proof (Bp_pos (length uu - L)) as Hp2.
     assert (c2 = 0).
-    { assert (val w + Bp L * val w2 = val uu - val qhatv + Bp L * (Bp (length uu - L) * c2)) by nia.
-      assert (0 <= val uu - val qhatv) by lia.
-      assert (val w + Bp L * val w2 < Bp L * Bp (length uu - L)) by nia.
-      pose proof (val_bounds' uu Ou) as Bu.
-      assert (Bp (length uu) = Bp L * Bp (length uu - L)) by (rewrite <- Bp_add; f_equal; f_equal; lia).
-      assert (Bp L * (Bp (length uu - L) * c2) < Bp L * Bp (length uu - L) * 1) by nia.
-      nia. }
+    { pose proof (two_limb (val w) (val w2) (Bp L) (Bp (length uu - L)) Bw B2) as Hb.
+      apply (carry_zero (val w + Bp L * val w2) (Bp L * Bp (length uu - L)) c2 (val uu - val qhatv) Hb);
+        [clear - Hle; lia | assumption |].
+      rewrite (limb_sub_eq _ _ _ _ _ _ _ _ _ Vw V2). clear - Vu. lia. }
     subst c2. exists (w ++ w2). repeat split.
     + rewrite app_length. lia.
     + apply words_ok_app. now split.
@@ -236,8 +248,8 @@ Proof.
   destruct (sub10VW_v qhat 1) as [q1 c1] eqn:E1.
   destruct (sub10VW_v_spec qhat 1 q1 c1 Oq ltac:(pose proof B_gt1; lia) E1) as (L1 & O1 & C0 & C1 & V1).
   assert (Ec1 : c1 = 0).
-  { pose proof (val_bounds' q1 O1) as B1. rewrite L1 in B1. pose proof (val_bounds' qhat Oq).
-    pose proof (Bp_pos (length qhat)). nia. }
+  { pose proof (val_bounds' q1 O1) as B1. rewrite L1 in B1. pose proof (val_bounds' qhat Oq) as Bq.
+    exact (no_borrow_word _ _ _ _ B1 Bq Hq1 C0 V1). }
   subst c1. cbn [fst].
   (* q̂v - v[:s] *)
   set (L := length qhatv).
@@ -265,10 +277,10 @@ Proof.
       pose proof (Bp_pos s) as Hps. pose proof (Bp_pos (L - s)) as Hp2.
       assert (HpL : Bp L = Bp s * Bp (L - s)) by (rewrite <- Bp_add; f_equal; f_equal; lia).
       assert (Ec2 : c2 = 0).
-      { destruct C2 as [C2|[C2 _]]; [|rewrite C2 in Ls; cbn in Ls; lia].
-        assert (val w + Bp s * val w2 = val qhatv - Vl + Bp s * (Bp (L - s) * c2)) by nia.
-        assert (val w + Bp s * val w2 < Bp s * Bp (L - s)) by nia.
-        assert (Bp s * (Bp (L - s) * c2) < Bp s * Bp (L - s) * 1) by nia. nia. }
+      { pose proof (two_limb (val w) (val w2) (Bp s) (Bp (L - s)) Bw B2) as Hb.
+        apply (carry_zero (val w + Bp s * val w2) (Bp s * Bp (L - s)) c2 (val qhatv - Vl) Hb);
+          [clear - Hge; lia | assumption |].
+        rewrite (limb_sub_eq _ _ _ _ _ _ _ _ _ Vw V2). clear - Vsp. lia. }
       subst c2. exists (w ++ w2). repeat split.
       + rewrite app_length. lia.
       + apply words_ok_app. now split.
@@ -295,12 +307,156 @@ Proof.
   assert (HpU : Bp (length uu) = Bp s * Bp (length uu - s)) by (rewrite <- Bp_add; f_equal; f_equal; lia).
   pose proof (val_nonneg _ (words_ok_firstn s uu Ou)) as Hf0.
   destruct (decAddAt_exact_gen (skipn s uu) (skipn s v) 0 Osu Osv ltac:(lia)) as (La & Oa & Va).
-  { rewrite Lsu. change (Bp 0) with 1. fold Vh. nia. }
+  { rewrite Lsu. change (Bp 0) with 1. fold Vh. rewrite Z.mul_1_l.
+    apply (Z.mul_lt_mono_pos_l (Bp s)); [assumption|]. rewrite <- HpU.
+    clear - Hfit Vsu Hf0. lia. }
   change (Bp 0) with 1 in Va. fold Vh in Va.
-  assert (LFu : length (firstn s uu) = s) by (rewrite firstn_length; lia).
+  assert (LFu : length (firstn s uu) = s) by (rewrite firstn_length; clear - Hs Hlv; lia).
   eexists _, _, _. split; [reflexivity|]. repeat split; try assumption.
-  - rewrite app_length, La, LFu, Lsu. lia.
+  - rewrite app_length, La, LFu, Lsu. clear - Hs Hlv. lia.
   - apply words_ok_app. split; [now apply words_ok_firstn | assumption].
-  - lia.
-  - rewrite val_app', LFu, Va. nia.
+  - clear - V1. lia.
+  - rewrite val_app', LFu, Va. clear - Vsu. lia.
+Qed.
+
+(* ---- the block quotient estimate ------------------------------------------ *)
+
+(* u = Uh·P + Ul, v = Vh·P + Vl, q̂ = ⌊Uh/Vh⌋.  Lemma 2 of Burnikel-Ziegler:
+   q̂ is not below ⌊u/v⌋ ... *)
+Lemma est_upper Uh Ul Vh Vl P q R :
+  0 < P -> 0 <= Ul < P -> 0 <= Vl -> 0 <= q -> 0 <= R < Vh -> Uh = q * Vh + R ->
+  Uh * P + Ul < (q + 1) * (Vh * P + Vl).
+Proof.
+  intros HP HUl HVl Hq HR E.
+  assert (Uh + 1 <= (q + 1) * Vh) by nia.
+  assert ((Uh + 1) * P <= (q + 1) * Vh * P) by (apply Z.mul_le_mono_nonneg_r; lia).
+  assert (0 <= (q + 1) * Vl) by nia. nia.
+Qed.
+
+(* ... and exceeds it by at most 2 when q̂ <= 2·Vh + 2 (which a divisor part Vh
+   with enough words guarantees) *)
+Lemma est_lower Uh Ul Vh Vl P q R :
+  0 < P -> 0 <= Ul -> 0 <= Vl < P -> 0 <= R -> 0 < Vh -> 0 <= q -> Uh = q * Vh + R -> q <= 2 * Vh + 2 ->
+  (q - 2) * (Vh * P + Vl) <= Uh * P + Ul.
+Proof.
+  intros HP HUl HVl HR HVh Hq0 E Hq.
+  destruct (Z.le_gt_cases 2 q) as [H2|H2].
+  - assert ((q - 2) * (Vh * P + Vl) <= (q - 2) * ((Vh + 1) * P)) by (apply Z.mul_le_mono_nonneg_l; nia).
+    assert ((q - 2) * (Vh + 1) <= Uh) by nia.
+    assert ((q - 2) * (Vh + 1) * P <= Uh * P) by (apply Z.mul_le_mono_nonneg_r; lia).
+    nia.
+  - assert (0 <= Uh) by nia. assert (0 <= Uh * P) by nia.
+    assert ((q - 2) * (Vh * P + Vl) <= 0) by nia. lia.
+Qed.
+
+(* ---- the correction loop --------------------------------------------------- *)
+
+Definition ctriple : Type := (list Z * list Z * list Z)%type.
+
+(* one round of `if qhatv.cmp(uu.norm()) > 0 { adjust }` *)
+Definition adj1 (v : list Z) (s : nat) (T : ctriple) : ctriple :=
+  let '(qhat, qhatv, uu) := T in
+  if 0 <? nat_cmp qhatv (norm uu) then rec_adjust qhat qhatv uu v s else T.
+
+Definition cq (T : ctriple) : Z := val (fst (fst T)).
+
+(* the invariant of the correction loop: q̂v = q̂·v[:s], uu = U - q̂·v[s:]·B^s *)
+Definition cinv (v : list Z) (s : nat) (U : Z) (Lq Lqv Lu : nat) (T : ctriple) : Prop :=
+  let '(qh, qhv, uu) := T in
+  words_ok qh = true /\ words_ok qhv = true /\ words_ok uu = true /\
+  length qh = Lq /\ length qhv = Lqv /\ length uu = Lu /\
+  val qhv = val qh * val (firstn s v) /\
+  val uu + val qh * (Bp s * val (skipn s v)) = U /\
+  (norm qhv = qhv \/ Bp Lqv <= B * val uu).
+
+Lemma cinv_cmp v s U Lq Lqv Lu qh qhv uu :
+  words_ok v = true -> (s <= length v)%nat ->
+  cinv v s U Lq Lqv Lu (qh, qhv, uu) ->
+  (0 <? nat_cmp qhv (norm uu)) = (U <? val qh * val v).
+Proof.
+  intros Ov Hs (Oq & Oqv & Ou & _ & Lqv' & _ & Vqv & VU & Hn).
+  assert (E : nat_cmp qhv (norm uu) = zsgn (val qhv) (val uu)).
+  { destruct Hn as [Hn|Hn]; [now apply nat_cmp_norm_r | apply nat_cmp_short; try assumption; now rewrite Lqv']. }
+  rewrite E, zsgn_pos. pose proof (val_split s v Hs) as Vv.
+  destruct (Z.ltb_spec (val uu) (val qhv)), (Z.ltb_spec U (val qh * val v)); try reflexivity; exfalso;
+    clear - H H0 Vqv VU Vv; nia.
+Qed.
+
+Lemma adj1_spec v s U Lq Lqv Lu T :
+  words_ok v = true -> (s <= length v)%nat -> (length v <= Lu)%nat -> (Lqv <= length v)%nat ->
+  U < Bp Lu -> Bp (length v) <= B * (Bp s * val (skipn s v)) ->
+  cinv v s U Lq Lqv Lu T ->
+  cinv v s U Lq Lqv Lu (adj1 v s T) /\
+  ((cq (adj1 v s T) = cq T /\ cq T * val v <= U) \/
+   (cq (adj1 v s T) = cq T - 1 /\ U < cq T * val v)).
+Proof.
+  intros Ov Hs Hlu Hlqv HU Hbig Hinv. destruct T as [[qh qhv] uu].
+  pose proof (cinv_cmp v s U Lq Lqv Lu qh qhv uu Ov Hs Hinv) as Ecmp.
+  unfold adj1. rewrite Ecmp. unfold cq at 2 4 5 6. cbn [fst].
+  destruct (Z.ltb_spec U (val qh * val v)) as [Hlt|Hge].
+  - destruct Hinv as (Oq & Oqv & Ou & Lq' & Lqv' & Lu' & Vqv & VU & Hn).
+    pose proof (val_nonneg uu Ou) as Hu0. pose proof (val_nonneg qh Oq) as Hq0.
+    pose proof (val_nonneg v Ov) as Hv0.
+    pose proof (val_nonneg _ (words_ok_skipn s v Ov)) as Hh0. pose proof (Bp_pos s) as Hps.
+    set (Vh := val (skipn s v)) in *.
+    assert (Hq1 : 1 <= val qh).
+    { destruct (Z.le_gt_cases 1 (val qh)); [assumption|]. exfalso.
+      assert (val qh = 0) by lia. clear - H0 Hlt VU Hu0. rewrite H0 in *. lia. }
+    assert (Hprod : 0 <= Bp s * Vh) by (clear - Hh0 Hps; nia).
+    assert (Hfit : val uu + Bp s * Vh < Bp (length uu)).
+    { rewrite Lu'. assert ((val qh - 1) * (Bp s * Vh) >= 0) by (clear - Hq1 Hprod; nia).
+      clear - H HU VU. nia. }
+    destruct (rec_adjust_spec qh qhv uu v s Oq Oqv Ou Ov Hs ltac:(lia) Hq1 Vqv Hfit)
+      as (q' & qv' & u' & E & L1 & L2 & L3 & O1 & O2 & O3 & V1 & V2 & V3).
+    rewrite E. unfold cq. cbn [fst]. split.
+    + unfold cinv. repeat split; try assumption; try congruence.
+      * rewrite V2, V1, Vqv. ring.
+      * fold Vh. rewrite V3, V1. clear - VU. lia.
+      * right. fold Vh in V3. rewrite V3.
+        pose proof (Bp_le Lqv (length v) Hlqv) as Hle. pose proof B_pos.
+        clear - Hle Hbig Hu0 H. nia.
+    + right. split; [assumption | lia].
+  - split; [assumption|]. left. unfold cq. cbn [fst]. split; [reflexivity | lia].
+Qed.
+
+(* two rounds suffice when q̂ is between ⌊U/v⌋ and ⌊U/v⌋+2; afterwards the
+   comparison `q̂v > uu` is false, so panic("impossible") is unreachable and the
+   subtraction leaves the remainder of U by v *)
+Lemma corr_spec v s U Lq Lqv Lu T :
+  words_ok v = true -> (s <= length v)%nat -> (length v <= Lu)%nat -> (Lqv <= length v)%nat ->
+  U < Bp Lu -> Bp (length v) <= B * (Bp s * val (skipn s v)) ->
+  cinv v s U Lq Lqv Lu T ->
+  U < (cq T + 1) * val v -> (cq T - 2) * val v <= U ->
+  exists qh qhv uu uu',
+    adj1 v s (adj1 v s T) = (qh, qhv, uu) /\
+    (0 <? nat_cmp qhv (norm uu)) = false /\
+    rec_subtract uu qhv = (uu', 0) /\
+    words_ok qh = true /\ length qh = Lq /\ words_ok uu' = true /\ length uu' = Lu /\
+    cq T - 2 <= val qh <= cq T /\
+    val uu' = U - val qh * val v /\ 0 <= val uu' < val v.
+Proof.
+  intros Ov Hs Hlu Hlqv HU Hbig Hinv Hup Hlo.
+  destruct (adj1_spec v s U Lq Lqv Lu T Ov Hs Hlu Hlqv HU Hbig Hinv) as (I1 & C1).
+  destruct (adj1_spec v s U Lq Lqv Lu (adj1 v s T) Ov Hs Hlu Hlqv HU Hbig I1) as (I2 & C2).
+  set (T1 := adj1 v s T) in *. set (T2 := adj1 v s T1) in *.
+  destruct T2 as [[qh qhv] uu] eqn:ET2.
+  assert (Hq : cq T - 2 <= val qh <= cq T /\ val qh * val v <= U < (val qh + 1) * val v).
+  { change (cq (qh, qhv, uu)) with (val qh) in C2.
+    set (a := cq T) in *. set (b := cq T1) in *. set (V := val v) in *. set (c := val qh) in *.
+    clearbody a b c V. clear - C1 C2 Hup Hlo.
+    destruct C1 as [[E1 H1]|[E1 H1]]; destruct C2 as [[E2 H2]|[E2 H2]]; subst b c;
+      repeat split; try lia; try (ring_simplify; ring_simplify in Hup; ring_simplify in Hlo;
+        ring_simplify in H1; ring_simplify in H2; lia). }
+  destruct Hq as (Hq & Hle & Hlt).
+  pose proof (cinv_cmp v s U Lq Lqv Lu qh qhv uu Ov Hs I2) as Ecmp.
+  destruct I2 as (Oq & Oqv & Ou & Lq' & Lqv' & Lu' & Vqv & VU & Hn).
+  pose proof (val_split s v Hs) as Vv.
+  assert (Hcmp : val qhv <= val uu) by (clear - Hle Vqv VU Vv; nia).
+  destruct (rec_subtract_spec uu qhv Ou Oqv ltac:(lia) Hcmp) as (uu' & Es & Ls & Os & Vs).
+  exists qh, qhv, uu, uu'. split; [reflexivity|]. split.
+  { rewrite Ecmp. apply Z.ltb_ge. assumption. }
+  split; [assumption|].
+  assert (Vu' : val uu' = U - val qh * val v) by (rewrite Vs; clear - Vqv VU Vv; nia).
+  repeat split; try assumption; try (clear - Hq; lia); try (clear - Ls Lu'; lia);
+    clear - Vu' Hle Hlt; lia.
 Qed.
